@@ -281,32 +281,56 @@ func domMerge(r *engine.Run) {
 			return
 		}
 		for _, mc := range mergeCalls {
-			facts, ok := engine.FactsOn(g, mc.Block())
-			isLevel, isDirect := false, false
-			if ok {
-				for _, ft := range facts {
-					// newDB.(*LevelNodeDB) succeeded
-					if ft.Kind == "bool" && ft.Truth {
-						if ex, ok := ft.A.(*ssa.Extract); ok && ex.Index == 1 {
-							if ta, ok := ex.Tuple.(*ssa.TypeAssert); ok && isNamed(ta.AssertedType, pkgUtil, "LevelNodeDB") {
-								if c, ok := ta.X.(*ssa.Call); ok && c.Call.IsInvoke() && c.Call.Method.Name() == "GetNodeDB" {
-									isLevel = true
-								}
+			isLevel, isDirect := directChildFacts(g, mc.Block(), g.Params[0], nil)
+			if !(isLevel && isDirect) {
+				// the two checks may sit in a helper of the operation that returns a
+				// nil error only where both held: merge is reached where that error
+				// tested nil
+				if facts, ok := engine.FactsOn(g, mc.Block()); ok {
+					for _, ft := range facts {
+						if ft.Kind != "eq" || !ft.Truth {
+							continue
+						}
+						a, b := ft.A, ft.B
+						if nilConst(a) {
+							a, b = b, a
+						}
+						if !nilConst(b) {
+							continue
+						}
+						ex, ok := a.(*ssa.Extract)
+						if !ok {
+							continue
+						}
+						hc, ok := ex.Tuple.(*ssa.Call)
+						if !ok {
+							continue
+						}
+						h := hc.Call.StaticCallee()
+						if h == nil || !inGroup(opGroup(r, g), h) || h.Signature.Results().Len() <= ex.Index {
+							continue
+						}
+						// which helper parameter is this trie
+						var self *ssa.Parameter
+						for i, arg := range hc.Call.Args {
+							if arg == ssa.Value(g.Params[0]) && i < len(h.Params) {
+								self = h.Params[i]
 							}
 						}
-					}
-					// preDB == mpt.GetNodeDB()
-					if ft.Kind == "eq" && ft.Truth {
-						a, b := ft.A, ft.B
-						for i := 0; i < 2; i++ {
-							ca, okA := through(a).(*ssa.Call)
-							cb, okB := through(b).(*ssa.Call)
-							if okA && okB && staticCalleeIs(ca, pkgUtil, "LevelNodeDB", "GetPrev") && staticCalleeIs(cb, pkgUtil, "MerklePatriciaTrie", "GetNodeDB") {
-								if prm, ok := cb.Call.Args[0].(*ssa.Parameter); ok && prm == g.Params[0] {
-									isDirect = true
-								}
+						if self == nil {
+							continue
+						}
+						lv, dr, n := true, true, 0
+						for _, ret := range engine.Returns(h) {
+							if len(ret.Results) <= ex.Index || !nilConst(ret.Results[ex.Index]) {
+								continue
 							}
-							a, b = b, a
+							n++
+							l, d := directChildFacts(h, ret.Block(), self, nil)
+							lv, dr = lv && l, dr && d
+						}
+						if n > 0 && lv && dr {
+							isLevel, isDirect = true, true
 						}
 					}
 				}
@@ -317,6 +341,43 @@ func domMerge(r *engine.Run) {
 				fmt.Sprintf("changes are merged from a trie that is not a direct child of this one (level-store check=%v, prev==own store check=%v)", isLevel, isDirect))
 		}
 	}
+}
+
+// directChildFacts: on every feasible path to block at of g, the store of the
+// other trie was asserted to be a *LevelNodeDB and its GetPrev() compared equal
+// to self.GetNodeDB().
+func directChildFacts(g *ssa.Function, at *ssa.BasicBlock, self *ssa.Parameter, _ interface{}) (isLevel, isDirect bool) {
+	facts, ok := engine.FactsOn(g, at)
+	if !ok {
+		return false, false
+	}
+	for _, ft := range facts {
+		// newDB.(*LevelNodeDB) succeeded
+		if ft.Kind == "bool" && ft.Truth {
+			if ex, ok := ft.A.(*ssa.Extract); ok && ex.Index == 1 {
+				if ta, ok := ex.Tuple.(*ssa.TypeAssert); ok && isNamed(ta.AssertedType, pkgUtil, "LevelNodeDB") {
+					if c, ok := ta.X.(*ssa.Call); ok && c.Call.IsInvoke() && c.Call.Method.Name() == "GetNodeDB" {
+						isLevel = true
+					}
+				}
+			}
+		}
+		// preDB == mpt.GetNodeDB()
+		if ft.Kind == "eq" && ft.Truth {
+			a, b := ft.A, ft.B
+			for i := 0; i < 2; i++ {
+				ca, okA := through(a).(*ssa.Call)
+				cb, okB := through(b).(*ssa.Call)
+				if okA && okB && staticCalleeIs(ca, pkgUtil, "LevelNodeDB", "GetPrev") && staticCalleeIs(cb, pkgUtil, "MerklePatriciaTrie", "GetNodeDB") {
+					if prm, ok := cb.Call.Args[0].(*ssa.Parameter); ok && prm == self {
+						isDirect = true
+					}
+				}
+				a, b = b, a
+			}
+		}
+	}
+	return
 }
 
 func cloneStore(r *engine.Run) {
